@@ -37,12 +37,11 @@ def names_or_all(names):
 
 def cmd_import(src, pid):
     notes = json.load(open(os.path.join(src, "_seed", "notes.json")))
+    k = 0  # round number: first free block of names <pid>-<10k+1>, <pid>-<10k+2> (also counting seeded/obsolete)
+    while any(os.path.exists(os.path.join(SEEDED, sub, "%s-%d" % (pid, j + 10 * k))) for sub in ("", "obsolete") for j in (1, 2)):
+        k += 1
     for i, n in enumerate(notes, 1):
-        name = "%s-%d" % (pid, i)
-        k = 1
-        while os.path.exists(os.path.join(SEEDED, name)):
-            k += 1
-            name = "%s-%d" % (pid, i + 10 * (k - 1))
+        name = "%s-%d" % (pid, i + 10 * k)
         dst = os.path.join(SEEDED, name)
         os.makedirs(dst)
         shutil.copy(os.path.join(src, "_seed", n["patch"]), os.path.join(dst, "patch.diff"))
